@@ -69,6 +69,44 @@ def push_sq0(job, ev, ctx):
 
 
 CHECKS = {
+    'C01': {
+        'level': 'model_checking',
+        'jobs': [
+            T('MC_Wire', 'Wire.cfg', workers=4), T('MC_Link', 'Link.cfg', workers=4),
+            C('link', 'TestLinkReal', 'TraceLink', trivial_len=4),
+            C('wire', 'TestWire', 'TraceWire', n={'quick': 60, 'thorough': 800}, trivial_len=3),
+        ],
+        'rule': 'link: one trace per (transport, pattern) with stop-and-wait exchanges of position-dependent payloads at '
+                'boundary lengths (0..5, every pool class c-2..c+2 also minus the protocol header, the receive limit and limit-1, '
+                'seeded random lengths; thorough adds every 7th length up to 2100 and 120 random ones), varying size hints; '
+                'wire: one trace per connection on net.Pipe with a chunked byte stream; distinct = distinct event sequences',
+        'assumptions': ASSUME_COMMON + ['content fidelity at each length is decided by digest equality inside TLC-validated traces, not proved for all lengths'],
+    },
+    'C15': {
+        'level': 'model_checking',
+        'jobs': [
+            T('MC_Wire', 'Wire.cfg', workers=4),
+            C('wire', 'TestWire', 'TraceWire', n={'quick': 60, 'thorough': 800}, trivial_len=3),
+            C('wirereal', 'TestWireReal', 'TraceWire', trivial_len=3),
+        ],
+        'assumptions': ASSUME_COMMON + ['gorilla/websocket (a dependency of mangos itself) is the independent WebSocket implementation'],
+    },
+    'C16': {
+        'level': 'model_checking',
+        'jobs': [
+            T('MC_Wire', 'Wire.cfg', workers=4),
+            C('wire', 'TestWire', 'TraceWire', n={'quick': 60, 'thorough': 800}, trivial_len=3),
+            C('wirestall', 'TestWireStall', 'TraceWire', trivial_len=0),
+            C('wirereal', 'TestWireReal', 'TraceWire', trivial_len=3),
+            R('xreq', 'xreq'), R('xsurveyor', 'xsurveyor'), R('xpair1', 'xpair1'), R('xstar', 'xstar'), R('xbus', 'xbus'),
+            R('xrep', 'xrep', tiers=('thorough',)), R('xrespondent', 'xrespondent', tiers=('thorough',)),
+            R('xpair', 'xpair', tiers=('thorough',)), R('xsub', 'xsub', tiers=('thorough',)), R('xpull', 'xpull', tiers=('thorough',)),
+            C('req', 'TestReq', 'TraceReq', n={'quick': 30, 'thorough': 300}),
+            C('surveyor', 'TestSurveyor', 'TraceSurveyor', n={'quick': 30, 'thorough': 300}),
+            C('rep', 'TestRep', 'TraceRep', n={'quick': 30, 'thorough': 300}),
+        ],
+        'assumptions': ASSUME_COMMON,
+    },
     'C02': {
         'level': 'model_checking',
         'jobs': [
